@@ -518,10 +518,33 @@ pub fn replay_net(ctx: &NetCtx, c: &Value, rep: &mut Report) {
                     }
                 };
                 rep.evaluations += 1;
+                let mut texts: Vec<String> = vec![];
                 let obs = match guarded(|| (eng.check_network_request(&req), eng.get_csp_directives(&req))) {
-                    Ok((r, csp)) => (verdict_json(&r), csp_json(&csp)),
+                    Ok((r, csp)) => {
+                        texts.extend(r.filter.clone());
+                        texts.extend(r.exception.clone());
+                        (verdict_json(&r), csp_json(&csp))
+                    }
                     Err(p) => (json!({"panic": p}), json!("panic")),
                 };
+                // Optimizer.tla binding: on the optimised debug engine the matched rule text of a fused rule
+                // lists its members; the groups must be the ones the specification computes
+                if let (true, true, Some(groups)) = (opt, label.is_empty(), c.get("fuse").and_then(|f| f.as_array())) {
+                    for t in &texts {
+                        let mut parts: Vec<&str> = t.split(" <+> ").collect();
+                        parts.sort();
+                        let spec_group = groups.iter().find(|g| g.as_array().unwrap().iter().any(|m| parts.contains(&m.as_str().unwrap())));
+                        let ok = match spec_group {
+                            Some(g) => { let mut m: Vec<&str> = g.as_array().unwrap().iter().map(|x| x.as_str().unwrap()).collect(); m.sort(); m == parts }
+                            None => parts.len() == 1,
+                        };
+                        rep.count("fuse_observations");
+                        if parts.len() > 1 { rep.count("fused_rule_observed"); }
+                        if !ok {
+                            rep.drift(json!({"what": "fuse-groups", "rules": rules, "tags": tags, "observed": parts, "model": groups}));
+                        }
+                    }
+                }
                 if obs.0["matched"] == json!(true) || obs.0["exception"] == json!(true) || obs.0["redirect"] != json!("")
                     || obs.0["rewritten"] != json!("") || obs.1 != json!([]) {
                     nontrivial = true;
